@@ -12,6 +12,21 @@ from vt import common
 from vt.common import VERIF, REPO
 
 
+def _ranges(nums):
+    out, start, prev = [], None, None
+    for n in nums:
+        if start is None:
+            start = prev = n
+        elif n == prev + 1:
+            prev = n
+        else:
+            out.append('%d-%d' % (start, prev) if prev > start else str(start))
+            start = prev = n
+    if start is not None:
+        out.append('%d-%d' % (start, prev) if prev > start else str(start))
+    return out
+
+
 def main(argv=None):
     ap = argparse.ArgumentParser()
     ap.add_argument('prop')
@@ -129,6 +144,18 @@ def main(argv=None):
                            'tier': args.tier, 'traceback': f['traceback']}, fh, indent=1, sort_keys=True)
             violations.append((path, f['clause'], f['message']))
 
+    # line coverage of the library (diagnostics of generator reach; only when VERIF_COVERAGE=1; shard 0 of every sub-check)
+    cov_stmt, cov_miss = {}, {}
+    for r in results:
+        for f, d in (r.get('coverage') or {}).items():
+            cov_stmt.setdefault(f, set()).update(d['statements'])
+            if f in cov_miss:
+                cov_miss[f] &= set(d['missing'])
+            else:
+                cov_miss[f] = set(d['missing'])
+    line_coverage = {f: {'statements': len(cov_stmt[f]), 'executed': len(cov_stmt[f]) - len(cov_miss[f]),
+                         'missing_lines': _ranges(sorted(cov_miss[f]))} for f in sorted(cov_stmt)}
+
     known = common.load_known(prop_id)
     for e in known:
         # a listed finding is reported on every run (it is a defect of the tree, whether or not this run's
@@ -172,6 +199,10 @@ def main(argv=None):
             'wall_s': round(wall, 2),
             'violations': len(violations),
         }
+        if line_coverage:
+            anchored = getattr(mod, 'ANCHOR_FILES', None)
+            ev['coverage']['line_coverage'] = {f: v for f, v in line_coverage.items() if anchored is None or f in anchored}
+            ev['coverage']['line_coverage_all'] = line_coverage
         extra = getattr(mod, 'EXTRA_COVERAGE', None)
         if extra:
             ev['coverage'].update(extra)
